@@ -11,7 +11,8 @@ Definition preinstall (pre : list nat) (w : world) : world :=
 Definition observe (r : res value exc) (w : world) : robs :=
   {| o_res := r;
      o_reentry := w_reentry w;
-     o_ran := sort_toks (w_ran w);
+     o_ran := sort_toks (filter not_timeout_tok (w_ran w));
+     o_order := w_ran w;
      o_junk := sort_toks (sp_junk (w_sp w));
      o_running := running (w_r w);
      o_pending := length (queue (w_r w));
@@ -19,25 +20,26 @@ Definition observe (r : res value exc) (w : world) : robs :=
      o_stop_ok := match w_stop w with SReal => negb (really_stopped (w_r w)) | SFake => false end;
      o_sigs := map (fun s => getsig s (w_sig w)) reactor_signals |}.
 
-Definition step (w : world) (rs : runspec) : robs * world :=
+Definition step (batch : bool) (w : world) (rs : runspec) : robs * world :=
   let w := if r_clear rs then clear_junk w else w in
   let w := preinstall (r_pre rs) w in
   let w := set_reentry None (set_ran [] w) in
-  let '(r, w') := run spinner_iterations (r_timeout rs) (r_fn rs) w in
+  let '(r, w') := run spinner_iterations batch (r_timeout rs) (r_fn rs) w in
   (observe r w', w').
 
-Fixpoint steps (w : world) (rss : list runspec) : obs :=
+Fixpoint steps (batch : bool) (w : world) (rss : list runspec) : obs :=
   match rss with
   | [] => []
-  | rs :: rest => let '(o, w') := step w rs in o :: steps w' rest
+  | rs :: rest => let '(o, w') := step batch w rs in o :: steps batch w' rest
   end.
 
-Definition model (i : input) : obs := steps (new_world (i_oracle i)) (i_runs i).
+Definition model (i : input) : obs := steps (i_batch i) (new_world (i_oracle i)) (i_runs i).
 
 Definition robs_eqb (a b : robs) : bool :=
   result_eqb (o_res a) (o_res b)
   && option_eqb Bool.eqb (o_reentry a) (o_reentry b)
   && list_eqb Nat.eqb (o_ran a) (o_ran b)
+  && list_eqb Nat.eqb (o_order a) (o_order b)
   && list_eqb Nat.eqb (o_junk a) (o_junk b)
   && Bool.eqb (o_running a) (o_running b)
   && Nat.eqb (o_pending a) (o_pending b)
